@@ -2,18 +2,21 @@
    have the outcome (returns / raises <class>) of the hand-written model validators, for all inputs:
      util.validate_events / validate_intervals / validate_frequencies           = Model.Validators.*_arr
      onset.validate, beat.validate                                              = events_validate_arr
-     segment.validate_boundary                                                  = validate_boundary_arr   (arrays of >= 1 dimension;
-                                                   on a 0-d array the source raises TypeError from len(): *_0d, *_tie_refuted)
+     segment.validate_boundary                                                  = validate_boundary_arr   (0-d arrays included:
+                                                   TypeError from len())
      segment.validate_structure                                                 = validate_structure_arr
      chord.validate                                                             = chord_validate
-     melody.validate_voicing / validate                                         = Model.Melody
+     melody.validate_voicing / validate                                         = melody_validate_voicing_nd / melody_validate_nd
+                                                   (arrays of any shape, IndexError from .shape[0] of a 0-d array; = Model.Melody on 1-d)
      multipitch.validate                                                        = multipitch_validate_arr
-     transcription.validate_intervals / validate, transcription_velocity.validate = validate_boundary_arr / transcription_validate_arr /
-                                                                                  velocity_validate_arr
+     transcription.validate_intervals / validate, transcription_velocity.validate = validate_pair_arr / transcription_validate_nd /
+                                                   velocity_validate_nd (pitch / velocity arrays of any shape; = the list-level models on 1-d)
      tempo.validate_tempi / validate                                            = Model.Tempo (inf / nan entries included)
      key.validate                                                               = Model.Key.validate      (validate_key is a callee)
      pattern.validate                                                           = Model.Pattern.validate_raw
      alignment.validate                                                         = Model.Alignment.validate_in
+     hierarchy.validate_hier_intervals                                          = validate_hier_arr (empty list: IndexError; a 0-d level:
+                                                   TypeError from len() in util.generate_labels; the accumulated set of boundaries only feeds warnings)
    Callees (util validators inside the task validators, validate_chord_label, validate_key, ...) are the argument
    [vext] of the evaluator, instantiated with the model functions; the three util validators are themselves tied.
    The proofs mention nothing of the generated text except the names gen_X: the decision tree of the program on
@@ -59,10 +62,10 @@ Proof. induction l; cbn; [reflexivity|]. now rewrite IHl. Qed.
 Ltac ev_lazy g ext :=
   match goal with |- context [run_dt ?T] =>
     let T' := eval lazy [g ext aprog_tree block exec eval list_eval tbind ap_params ap_body app
-       sget slookup String.eqb Ascii.eqb Bool.eqb poison sbind bind_names assigned assigned_block
+       sget slookup String.eqb Ascii.eqb Bool.eqb poison poison_keep carried_ok is_opaque sbind bind_names assigned assigned_block
        truth truth_defined called arr1
        a_cmp a_bin a_ndim a_size a_shape a_len a_index a_col a_tail a_init a_last a_abs a_diff a_isfinite a_logic a_red
-       a_allclose a_isarray scal one_d arr1d zn] in T in change T with T' end.
+       a_allclose a_isarray a_enumerate a_set item_at rest_items scal one_d arr1d zn] in T in change T with T' end.
 Ltac ev_tree g ext :=
   unfold arun; ev_lazy g ext; repeat (progress cbn [each_then]; ev_lazy g ext);
   cbn [run_dt ndim shape data].
@@ -219,12 +222,18 @@ Definition vext (f : callee) (vs : list aval) : dt aval :=
   | F_util_validate_intervals, [DArr a] => called (lift_u (validate_intervals_arr a))
   | F_util_validate_frequencies, [DArr a; DNum mx; DNum mn; DBool neg] => called (lift_u (validate_frequencies_arr mx mn neg a))
   | F_chord_validate_chord_label, [DStr s] => called (lift_u (ChordParse.validate_label s))
-  | F_transcription_validate_intervals, [DArr r; DArr e] => called (lift_u (validate_boundary_arr r e))
-  | F_transcription_validate, [DArr ri; DArr (mkarr 1 [_] rp); DArr ei; DArr (mkarr 1 [_] ep)] =>
-      called (lift_u (transcription_validate_arr ri rp ei ep))
+  | F_transcription_validate_intervals, [DArr r; DArr e] => called (lift_u (validate_pair_arr r e))
+  | F_transcription_validate, [DArr ri; DArr rp; DArr ei; DArr ep] => called (lift_u (transcription_validate_nd ri rp ei ep))
   | F_tempo_validate_tempi, [DXArr t; DBool r] => called (lift_any (Tempo.validate_tempi t r))
   | F_key_validate_key, [DStr s] => called (lift_u (Key.validate_key s))
   | F_pattern_n_onset_midi, [DList ps] => Ret (DInt (Z.of_nat (count_notes ps)))
+  (* util.generate_labels(a, prefix): len(a) strings (TypeError on a 0-d array); only their number matters *)
+  | F_util_generate_labels, [DArr a; DStr _] =>
+      Test (is_nil (shape a)) (Exn TypeError) (Ret (DList (repeat DNone (nth 0 (shape a) 0%nat))))
+  (* util.intervals_to_boundaries(a, q) = np.unique(np.ravel(np.round(a, q))): total on arrays; the result is only passed on *)
+  | F_util_intervals_to_boundaries, [DArr _; DInt _] => Ret DOpaque
+  | F_segment_validate_structure, [DArr ri; DList rl; DArr ei; DList el] =>
+      called (lift_u (validate_structure_arr ri (length rl) ei (length el)))
   | _, _ => Unm
   end.
 
@@ -271,28 +280,16 @@ Theorem beat_validate_tie : forall r e : arr, arun gen_beat_validate vext [DArr 
 Proof. intros. ev_tree gen_beat_validate vext. unfold events_validate_arr, EV_MAX_TIME. res_cases; reflexivity. Qed.
 
 (* segment.validate_boundary calls len() on both arrays first: a 0-d array is rejected with TypeError there *)
-Theorem segment_validate_boundary_tie : forall (r e : arr) (trim : bool), shape r <> [] -> shape e <> [] ->
+Theorem segment_validate_boundary_tie : forall (r e : arr) (trim : bool),
   arun gen_segment_validate_boundary vext [DArr r; DArr e; DBool trim] = lift_u (validate_boundary_arr r e).
 Proof.
-  intros r e trim Hr He. ev_tree gen_segment_validate_boundary vext. unfold validate_boundary_arr.
-  destruct (shape r); [congruence|]. destruct (shape e); [congruence|]. cbn [is_nil].
-  destruct trim; res_cases; reflexivity.
+  intros r e trim. ev_tree gen_segment_validate_boundary vext. unfold validate_boundary_arr, validate_pair_arr, arr_len.
+  destruct (shape r), (shape e); cbn [is_nil bind lift_u]; destruct trim; res_cases; reflexivity.
 Qed.
-Theorem segment_validate_boundary_0d : forall (r e : arr) (trim : bool), shape r = [] \/ shape e = [] ->
-  arun gen_segment_validate_boundary vext [DArr r; DArr e; DBool trim] = EXN TypeError.
-Proof.
-  intros r e trim H. ev_tree gen_segment_validate_boundary vext.
-  destruct (shape r), (shape e), trim, H; cbn [is_nil]; try reflexivity; discriminate.
-Qed.
-(* the model answers ValueError on a 0-d array: witness  segment.validate_boundary(np.array(3.0), np.array([[0., 1.]]), False) *)
-Theorem segment_validate_boundary_tie_refuted : exists (r e : arr) (trim : bool), wf_arr r = true /\ wf_arr e = true /\
-  arun gen_segment_validate_boundary vext [DArr r; DArr e; DBool trim] = EXN TypeError /\
-  lift_u (validate_boundary_arr r e) = EXN ValueError.
-Proof. exists (mkarr 0 [] [3]), (arr2 [(0, 1)]), false. repeat split; vm_compute; reflexivity. Qed.
 
 Theorem transcription_validate_intervals_tie : forall r e : arr,
-  arun gen_transcription_validate_intervals vext [DArr r; DArr e] = lift_u (validate_boundary_arr r e).
-Proof. intros. ev_tree gen_transcription_validate_intervals vext. unfold validate_boundary_arr. res_cases; reflexivity. Qed.
+  arun gen_transcription_validate_intervals vext [DArr r; DArr e] = lift_u (validate_pair_arr r e).
+Proof. intros. ev_tree gen_transcription_validate_intervals vext. unfold validate_pair_arr. res_cases; reflexivity. Qed.
 
 (* ---------- segment.validate_structure ---------- *)
 Lemma vi_ok_shape a : wf_arr a = true -> validate_intervals_arr a = Ok tt -> (0 <? length (shape a))%nat = true.
@@ -352,18 +349,42 @@ Qed.
 Lemma existsb_vmap2_same {A} (f g : A -> bool) l :
   existsb (fun b => b) (vmap2 orb (map f l) (map g l)) = existsb (fun x => f x || g x) l.
 Proof. induction l; cbn; [reflexivity|]. now rewrite IHl. Qed.
-Theorem melody_validate_voicing_tie : forall rv ev : list Q,
-  arun gen_melody_validate_voicing vext [DArr (arr1 rv); DArr (arr1 ev)] = lift_u (Melody.validate_voicing rv ev).
+Lemma existsb_vmap2_same' {A} (f g : A -> bool) l :
+  existsb (fun b => b) (vmap2 orb (map f l) (map g l)) = existsb (fun x => f x || g x) l.
+Proof. apply existsb_vmap2_same. Qed.
+(* a.shape[0] in the evaluator and in the model *)
+Lemma ltb_0_S n : (0 <? S n)%nat = true. Proof. reflexivity. Qed.
+Ltac shape_cases a :=
+  unfold arr_shape0; destruct (shape a) as [|? ?]; cbn [length nth bind lift_u]; closed_tests; rewrite ?ltb_0_S; cbn [lift_u].
+Theorem melody_validate_voicing_tie : forall rv ev : arr,
+  arun gen_melody_validate_voicing vext [DArr rv; DArr ev] = lift_u (melody_validate_voicing_nd rv ev).
 Proof.
   intros. ev_tree gen_melody_validate_voicing vext. norm. rewrite !existsb_vmap2_same.
-  unfold Melody.validate_voicing, Melody.voicing_bad. split_ifs; reflexivity.
+  unfold melody_validate_voicing_nd, voicing_out_of_range. shape_cases rv; [reflexivity|]. shape_cases ev; [reflexivity|].
+  split_ifs; reflexivity.
 Qed.
-Theorem melody_validate_tie : forall rv rc ev ec : list Q,
+Theorem melody_validate_tie : forall rv rc ev ec : arr,
+  arun gen_melody_validate vext [DArr rv; DArr rc; DArr ev; DArr ec] = lift_u (melody_validate_nd rv rc ev ec).
+Proof.
+  intros. ev_tree gen_melody_validate vext. norm. unfold melody_validate_nd.
+  shape_cases rv; [reflexivity|]. shape_cases rc; [reflexivity|].
+  shape_cases ev; [split_ifs; reflexivity|]. shape_cases ec; split_ifs; reflexivity.
+Qed.
+(* on 1-d arrays these are the list-level models of Model/Melody.v *)
+Corollary melody_validate_voicing_tie_1d : forall rv ev : list Q,
+  arun gen_melody_validate_voicing vext [DArr (arr1 rv); DArr (arr1 ev)] = lift_u (Melody.validate_voicing rv ev).
+Proof.
+  intros. rewrite melody_validate_voicing_tie. f_equal.
+  unfold melody_validate_voicing_nd, Melody.validate_voicing, Melody.voicing_bad. cbn [arr_shape0 arr1 shape data bind].
+  change voicing_out_of_range with (fun x => qltb x 0 || qltb 1 x).
+  destruct (length rv =? length ev)%nat; cbn [negb]; [|reflexivity]. destruct (existsb _ rv); reflexivity.
+Qed.
+Corollary melody_validate_tie_1d : forall rv rc ev ec : list Q,
   arun gen_melody_validate vext [DArr (arr1 rv); DArr (arr1 rc); DArr (arr1 ev); DArr (arr1 ec)]
   = lift_u (Melody.validate rv rc ev ec).
 Proof.
-  intros. ev_tree gen_melody_validate vext. norm.
-  unfold Melody.validate. split_ifs; reflexivity.
+  intros. rewrite melody_validate_tie. f_equal. unfold melody_validate_nd, Melody.validate. cbn [arr_shape0 arr1 shape bind].
+  destruct (length rv =? length rc)%nat, (length ev =? length ec)%nat, (length rc =? length ec)%nat; reflexivity.
 Qed.
 
 (* ---------- transcription.validate / transcription_velocity.validate ---------- *)
@@ -397,29 +418,49 @@ Proof.
   induction t as [|y t IH]; intros x; cbn [fold_left existsb]; [now rewrite orb_false_r|].
   rewrite IH. cbn [existsb]. rewrite qlt_min_or, orb_assoc. reflexivity.
 Qed.
-Theorem transcription_validate_tie : forall (ri ei : arr) (rp ep : list Q), wf_arr ri = true -> wf_arr ei = true ->
-  arun gen_transcription_validate vext [DArr ri; DArr (arr1 rp); DArr ei; DArr (arr1 ep)]
-  = lift_u (transcription_validate_arr ri rp ei ep).
+(* x.size > 0 and np.min(x) <= c  on an array of any shape *)
+Lemma min_le_exists_nd c l :
+  (if (0 <? length l)%nat then if is_nil l then true else qleb (qmin0 l) c else false) = existsb (fun p => qleb p c) l.
+Proof. destruct l as [|x t]; [reflexivity|]. cbn [length Nat.ltb Nat.leb is_nil qmin0 qmin_list]. apply min_le_exists. Qed.
+Theorem transcription_validate_tie : forall ri rp ei ep : arr, wf_arr ri = true -> wf_arr ei = true ->
+  arun gen_transcription_validate vext [DArr ri; DArr rp; DArr ei; DArr ep] = lift_u (transcription_validate_nd ri rp ei ep).
 Proof.
-  intros ri ei rp ep Wr We. ev_tree gen_transcription_validate vext. norm.
-  unfold transcription_validate_arr, validate_boundary_arr, shape0. rewrite !lift_bind.
+  intros ri rp ei ep Wr We. ev_tree gen_transcription_validate vext. norm.
+  unfold transcription_validate_nd, validate_pair_arr, shape0. rewrite !lift_bind.
   destruct (validate_intervals_arr ri) as [[]|x] eqn:V1; [rewrite ?(vi_ok_shape ri Wr V1)|ve V1];
     (destruct (validate_intervals_arr ei) as [[]|x] eqn:V2; [rewrite ?(vi_ok_shape ei We V2)|ve V2]);
-    cbn [lift_u obind];
-    destruct rp as [|p1 rp], ep as [|p2 ep]; cbn [length Nat.ltb Nat.leb is_nil qmin0 qmin_list]; rewrite ?min_le_exists; cbn [existsb];
+    cbn [lift_u obind]; try reflexivity.
+  shape_cases rp; [reflexivity|]. if_step; try reflexivity. shape_cases ep; [reflexivity|]. if_step; try reflexivity.
+  destruct (data rp) as [|p1 drp], (data ep) as [|p2 dep]; cbn [length Nat.ltb Nat.leb is_nil qmin0 qmin_list]; rewrite ?min_le_exists; cbn [existsb];
     split_ifs; reflexivity.
 Qed.
-Theorem transcription_velocity_validate_tie : forall (ri ei : arr) (rp rv ep ev : list Q),
+Theorem transcription_velocity_validate_tie : forall ri rp rv ei ep ev : arr,
+  arun gen_transcription_velocity_validate vext [DArr ri; DArr rp; DArr rv; DArr ei; DArr ep; DArr ev]
+  = lift_u (velocity_validate_nd ri rp rv ei ep ev).
+Proof.
+  intros. ev_tree gen_transcription_velocity_validate vext. norm.
+  unfold velocity_validate_nd, shape0. rewrite !lift_bind.
+  destruct (transcription_validate_nd ri rp ei ep) as [[]|x] eqn:V1; cbn [lift_u obind]; [|reflexivity].
+  assert (Sp : (0 <? length (shape rp))%nat = true /\ (0 <? length (shape ep))%nat = true).
+  { unfold transcription_validate_nd, arr_shape0 in V1.
+    destruct (validate_intervals_arr ri) as [[]|]; [|discriminate]. destruct (validate_intervals_arr ei) as [[]|]; [|discriminate]. cbn [bind] in V1.
+    destruct (shape rp); [discriminate|]. cbn [bind] in V1. destruct (negb _); [discriminate|].
+    destruct (shape ep); [discriminate|]. split; reflexivity. }
+  destruct Sp as [Sp Se].
+  shape_cases rv; [reflexivity|]. rewrite ?Sp. if_step; try reflexivity. shape_cases ev; [reflexivity|]. rewrite ?Se. if_step; try reflexivity.
+  destruct (data rv) as [|v1 drv], (data ev) as [|v2 dev]; cbn [length Nat.ltb Nat.leb is_nil qmin0 qmin_list]; rewrite ?min_lt_exists; cbn [existsb];
+    split_ifs; reflexivity.
+Qed.
+(* on 1-d pitch / velocity arrays these are the list-level models *)
+Corollary transcription_validate_tie_1d : forall (ri ei : arr) (rp ep : list Q), wf_arr ri = true -> wf_arr ei = true ->
+  arun gen_transcription_validate vext [DArr ri; DArr (arr1 rp); DArr ei; DArr (arr1 ep)]
+  = lift_u (transcription_validate_arr ri rp ei ep).
+Proof. intros. now rewrite transcription_validate_tie. Qed.
+Corollary transcription_velocity_validate_tie_1d : forall (ri ei : arr) (rp rv ep ev : list Q),
   arun gen_transcription_velocity_validate vext
        [DArr ri; DArr (arr1 rp); DArr (arr1 rv); DArr ei; DArr (arr1 ep); DArr (arr1 ev)]
   = lift_u (velocity_validate_arr ri rp rv ei ep ev).
-Proof.
-  intros. ev_tree gen_transcription_velocity_validate vext. norm.
-  unfold velocity_validate_arr. rewrite !lift_bind.
-  destruct (transcription_validate_arr ri rp ei ep) as [[]|x] eqn:V1; cbn [lift_u obind]; [|reflexivity].
-  destruct rv as [|v1 rv], ev as [|v2 ev]; cbn [length Nat.ltb Nat.leb is_nil qmin0 qmin_list]; rewrite ?min_lt_exists; cbn [existsb];
-    split_ifs; reflexivity.
-Qed.
+Proof. intros. now rewrite transcription_velocity_validate_tie. Qed.
 
 (* ---------- tempo.validate_tempi / tempo.validate ---------- *)
 Lemma all_fin_spec t :
@@ -530,6 +571,35 @@ Proof.
   destruct (forallb ok_pat r), (forallb ok_pat e); cbn [andb obind lift_u]; reflexivity.
 Qed.
 
+(* ---------- hierarchy.validate_hier_intervals ---------- *)
+Lemma run_each_then_enum {X} (g : aval -> dt unit -> dt unit) (F : X -> aval) (h : X -> out unit) :
+  (forall z x K, run_dt (g (DList [DInt z; F x]) K) = obind (h x) (fun _ => run_dt K)) ->
+  forall l z K, run_dt (each_then g (enumerate_from z (map F l)) K) = obind (each_out h l) (fun _ => run_dt K).
+Proof.
+  intros H l. induction l as [|x t IH]; intros z K; cbn [map enumerate_from each_then each_out obind]; [reflexivity|].
+  rewrite H, IH. destruct (h x) as [[]|e|]; reflexivity.
+Qed.
+Definition h_level (top l : arr) : out unit := lift_u (n <- arr_len l ;; validate_structure_arr top (shape0 top) l n).
+Lemma each_levels top rest : each_out (h_level top) rest = lift_u (validate_levels_arr top rest).
+Proof.
+  induction rest as [|l t IH]; cbn [each_out validate_levels_arr]; [reflexivity|]. rewrite IH. unfold h_level, arr_len.
+  destruct (shape l); cbn [bind lift_u obind]; [reflexivity|]. rewrite !lift_bind. reflexivity.
+Qed.
+Theorem hierarchy_validate_hier_intervals_tie : forall H : list arr,
+  arun gen_hierarchy_validate_hier_intervals vext [DList (map DArr H)] = lift_u (validate_hier_arr H).
+Proof.
+  intros [|top rest]; cbn [map].
+  - ev_tree gen_hierarchy_validate_hier_intervals vext. reflexivity.
+  - ev_tree gen_hierarchy_validate_hier_intervals vext. cbn [length]. rewrite ?ltb_0_S. cbv iota.
+    rewrite (run_each_then_enum _ DArr (h_level top)).
+    2:{ intros z x K. ev_lazy gen_hierarchy_validate_hier_intervals vext. cbn [run_dt length]. rewrite ?ltb_0_S, ?repeat_length. cbv iota.
+        unfold h_level, arr_len, shape0. destruct (shape x); cbn [is_nil bind lift_u obind nth]; [reflexivity|].
+        rewrite ?lift_bind. reflexivity. }
+    rewrite each_levels. cbn [run_dt validate_hier_arr]. unfold arr_len.
+    destruct (shape top); cbn [is_nil bind lift_u obind]; [reflexivity|].
+    destruct (validate_levels_arr top rest) as [[]|x]; reflexivity.
+Qed.
+
 (* ---------- the hypotheses are satisfiable; the evaluator's reading on degenerate shapes ----------
    Each outcome below was observed on the implementation (NumPy 2, /repo at HEAD) for the same input. *)
 Example wf_example : wf_arr (arr2 [(0, 1)]) = true /\ shape (arr2 [(0, 1)]) <> []. Proof. split; [reflexivity|discriminate]. Qed.
@@ -580,6 +650,20 @@ Example E41 : arun gen_transcription_velocity_validate vext [DArr ok1; DArr (arr
 Example E42 : arun gen_transcription_validate vext [DArr ok1; DArr (arr1 [0]); DArr ok1; DArr (arr1 [220])] = EXN ValueError. Proof. reflexivity. Qed.
 Example E43 : arun gen_melody_validate vext [DArr (a0 3); DArr (a0 3); DArr (a0 3); DArr (a0 3)] = EXN IndexError. Proof. reflexivity. Qed.
 Example E44 : arun gen_melody_validate_voicing vext [DArr (arr1 [1; 3 # 2]); DArr (arr1 [1; 1])] = EXN ValueError. Proof. reflexivity. Qed.
+Definition hier (H : list arr) : list aval := [DList (map DArr H)].
+Example E45 : arun gen_hierarchy_validate_hier_intervals vext (hier [a0 3]) = EXN TypeError. Proof. reflexivity. Qed.
+Example E46 : arun gen_hierarchy_validate_hier_intervals vext (hier []) = EXN IndexError. Proof. reflexivity. Qed.
+Example E47 : arun gen_hierarchy_validate_hier_intervals vext (hier [ok1; a0 3]) = EXN TypeError. Proof. reflexivity. Qed.
+Example E48 : arun gen_hierarchy_validate_hier_intervals vext (hier [arr1 [0; 1]; a0 3]) = EXN TypeError. Proof. reflexivity. Qed.
+Example E49 : arun gen_hierarchy_validate_hier_intervals vext (hier [ok1; arr2 [(0, 2)]; a0 3]) = EXN ValueError. Proof. vm_compute. reflexivity. Qed.
+Example E50 : arun gen_hierarchy_validate_hier_intervals vext (hier [ok1; ok1; a0 3]) = EXN TypeError. Proof. vm_compute. reflexivity. Qed.
+Example E51 : arun gen_hierarchy_validate_hier_intervals vext (hier [arr1 [0; 1]]) = OK tt. Proof. reflexivity. Qed.
+Example E52 : arun gen_segment_validate_boundary vext [DArr (arr1 [0; 1]); DArr (a0 3); DBool false] = EXN TypeError. Proof. reflexivity. Qed.
+Example E53 : arun gen_transcription_validate_intervals vext [DArr (a0 3); DArr ok1] = EXN ValueError. Proof. reflexivity. Qed.
+Example E54 : arun gen_melody_validate vext [DArr (arr1 [1]); DArr (arr1 [1; 2]); DArr (a0 (1 # 2)); DArr (arr1 [1])] = EXN ValueError. Proof. reflexivity. Qed.
+Example E55 : arun gen_melody_validate vext [DArr (arr1 [1]); DArr (arr1 [1]); DArr (arr1 [1]); DArr (a0 (1 # 2))] = EXN IndexError. Proof. reflexivity. Qed.
+Example E56 : arun gen_transcription_velocity_validate vext [DArr ok1; DArr (arr1 [220]); DArr (a0 3); DArr ok1; DArr (arr1 [220]); DArr (arr1 [1])] = EXN IndexError. Proof. reflexivity. Qed.
+Example E57 : arun gen_transcription_validate vext [DArr ok1; DArr (sh [1; 2]%nat [220; -1]); DArr ok1; DArr (arr1 [220])] = EXN ValueError. Proof. reflexivity. Qed.
 
 Print Assumptions validate_events_tie.
 Print Assumptions validate_events_tie_int.
@@ -588,8 +672,6 @@ Print Assumptions validate_frequencies_tie.
 Print Assumptions onset_validate_tie.
 Print Assumptions beat_validate_tie.
 Print Assumptions segment_validate_boundary_tie.
-Print Assumptions segment_validate_boundary_0d.
-Print Assumptions segment_validate_boundary_tie_refuted.
 Print Assumptions segment_validate_structure_tie.
 Print Assumptions chord_validate_tie.
 Print Assumptions melody_validate_voicing_tie.
@@ -603,5 +685,10 @@ Print Assumptions tempo_validate_tie.
 Print Assumptions key_validate_tie.
 Print Assumptions pattern_validate_tie.
 Print Assumptions alignment_validate_tie.
+Print Assumptions hierarchy_validate_hier_intervals_tie.
+Print Assumptions melody_validate_voicing_tie_1d.
+Print Assumptions melody_validate_tie_1d.
+Print Assumptions transcription_validate_tie_1d.
+Print Assumptions transcription_velocity_validate_tie_1d.
 Print Assumptions alignment_validate_tie_notarray_ref.
 Print Assumptions alignment_validate_tie_notarray_est.
